@@ -20,6 +20,21 @@ add("C20", "exploration",
     COMMON_NOTE + "The pre-go1.21 file is compiled with the installed toolchain through the overlay.",
     "bounded-exhaustive enumeration of the input space (small-scope) against a direct oracle", "E1/E6", "5/C20")
 
+MC_NOTE = COMMON_NOTE + "States are keyed by private fields read through overlay-added dump files; the key is deliberately over-fine (keeps capacities and the size-statistics ring) and carries a flag when buffered bytes differ from the stream, so merging never hides a corrupted buffer. "
+
+add("C04", "model_checking",
+    "Explicit-state breadth-first search over ALL operation histories (Next/Peek/Skip/ReadBinary with boundary sizes, negative counts, Release) of the REAL DefaultReader and BytesReader, for every combination of stream length, chunk policy, end-of-data style, zero-read policy and terminal error, with every transition compared against a plain cursor over the source bytes; on top, every per-Read deviation (1-byte, empty, half, all-with-error) up to a deviation bound on all short histories. This is the right level because the property quantifies over histories x fragmentations and the defects live in cursor arithmetic reachable only from non-initial states.",
+    MC_NOTE + "Environment: a source that fails keeps failing; zero-read policies are finite (<100 consecutive empty reads).",
+    "explicit-state BFS over operation histories of the real object + deviation-bounded exploration of environment answers, reference-model comparison on every transition", "E2+E1", "5/C04")
+add("C05", "model_checking",
+    "Explicit-state breadth-first search over ALL histories of Malloc (filled at once or lazily just before Flush, forward/reverse), WriteBinary, Malloc(-1), Flush on the REAL DefaultWriter and BytesWriter, sink failing at write k for every k, bytes writers over nil/empty/partly filled/full initial slices; every transition compared with the region-list model (sink bytes == concatenation once and in order, WrittenLen, sticky error, target slice).",
+    MC_NOTE + "Later flushes of one bytes writer: both readings of the statement are accepted.",
+    "explicit-state BFS over operation histories of the real object, reference-model comparison on every transition", "E2", "5/C05")
+add("C09", "model_checking",
+    "The C04/C05 state spaces re-explored with every handed-out slice/region retained until Release/Flush, lazily filled regions, an adversarial co-tenant of the shared pool that drains and scribbles every free buffer between any two operations (keeping or re-freeing), caller-memory snapshots and the allocator shim's ownership audit (foreign free, double free, interior free, write-after-free, write into another tenant's buffer).",
+    MC_NOTE + "The co-tenant is deterministic and always runs (worst case). Skip-decoder results are covered through the reader they are backed by.",
+    "explicit-state BFS over operation histories of the real objects with an adversarial environment process and ownership audit", "E2+E4", "5/C09")
+
 NOT_YET = {}
 
 def main():
